@@ -556,6 +556,7 @@ type session struct {
 
 type outcome struct {
 	Out    string
+	ErrOut string // what the interpreter wrote to Options.Stderr (panic position lines)
 	Err    string
 	Events []ev
 	Stops  int
@@ -577,22 +578,22 @@ func errString(err error) string {
 }
 
 func plain(p program) outcome {
-	var buf bytes.Buffer
+	var buf, ebuf bytes.Buffer
 	steps := 0
-	i := interp.New(interp.Options{Stdout: &buf, Stderr: &bytes.Buffer{}})
+	i := interp.New(interp.Options{Stdout: &buf, Stderr: &ebuf})
 	i.Use(h.Exports(&buf, &steps))
 	prog, err := i.Compile(p.Src)
 	if err != nil {
 		return outcome{Err: "compile:" + err.Error()}
 	}
 	_, err = i.Execute(prog)
-	return outcome{Out: buf.String(), Err: errString(err)}
+	return outcome{Out: buf.String(), ErrOut: ebuf.String(), Err: errString(err)}
 }
 
 func debug(p program, s session) (o outcome) {
-	var buf bytes.Buffer
+	var buf, ebuf bytes.Buffer
 	steps := 0
-	i := interp.New(interp.Options{Stdout: &buf, Stderr: &bytes.Buffer{}})
+	i := interp.New(interp.Options{Stdout: &buf, Stderr: &ebuf})
 	i.Use(h.Exports(&buf, &steps))
 	prog, err := i.Compile(p.Src)
 	if err != nil {
@@ -695,6 +696,7 @@ loop:
 		}
 	}
 	o.Out = buf.String()
+	o.ErrOut = ebuf.String()
 	o.Events = events
 	return o
 }
@@ -709,6 +711,9 @@ func check(p program, s session, ref, o outcome) string {
 	}
 	if o.Err != ref.Err {
 		return fmt.Sprintf("result/panic differs from plain execution: %q vs %q", o.Err, ref.Err)
+	}
+	if o.ErrOut != ref.ErrOut {
+		return fmt.Sprintf("standard error differs from plain execution: %q vs %q", o.ErrOut, ref.ErrOut)
 	}
 	if len(o.Events) == 0 || o.Events[len(o.Events)-1].Reason != "terminate" {
 		return "the session does not end with a terminate event"
@@ -955,6 +960,9 @@ func keyOf(f fail) string {
 		kind = "every-line"
 	}
 	w := f.What
+	if strings.HasPrefix(w, "standard error differs") {
+		w = "standard error differs from plain execution"
+	}
 	if i := strings.Index(w, ":"); i > 0 && strings.HasPrefix(w, "output differs") {
 		w = "output differs from plain execution"
 	}
